@@ -157,7 +157,7 @@ func vCheckErrors(c *Cache, list []*vDir, rerr error) {
 				anyBad = true
 				allFine = false
 				_, has := errs[d.path+"/"+f.name]
-				if f.state == vFileInvalid {
+				if f.state == vFileInvalid || f.state == vFileDangle {
 					vreach("invalid-file")
 					vassert("failing-spec-file-is-reported", has)
 				}
